@@ -62,6 +62,10 @@ def make_probe(run, allowed, keys, compress, rp, stats):
                         fh.truncate(cut)
                     v2, l2 = D.reader_view(img, keys, compress)
                     core.rm_rf(img)
+                    for k in stats.get('must_have', ()):
+                        if k not in v2:
+                            run.fail('power-loss-damage', 'at the point before %s: %s is reachable under a final name with only %d of %d bytes on disk; after a power loss the previously stored '
+                                     'result of key %s cannot be loaded any more' % (prim, os.path.relpath(f, rec.jugdir), dur, size, k), dict(rp, point=len(rec.events), cut=cut))
                     for k, v in v2.items():
                         if v not in allowed.get(k, ()):
                             run.fail('power-loss-partial', 'at the point before %s: %s is reachable under a final name with only %d of %d bytes on disk; after a power loss key %s loads as %s'
@@ -143,26 +147,49 @@ def check(run):
                     run.sample({'case': name, 'scenario': scenario, 'primitive_boundaries_probed': stats['points'], 'recorded': [e[0] for e in rec.events][:40]})
                 core.rm_rf(jd)
         # the pack rewrite and `jug pack` themselves
-        for scen in ('resave', 'update_pack'):
+        # ... and every other operation that rewrites the pack file: removal of a packed key, removal of a loose key of a packed store
+        # (remove_many always rewrites the pack), cleanup pruning an inactive packed entry
+        KEY3 = b'efkey0000000000000000000000000000000000'
+
+        class _T:
+            def __init__(self, h):
+                self.h = h
+
+            def hash(self):
+                return self.h
+        for scen in ('resave', 'update_pack', 'remove-packed', 'remove_many-packed', 'remove_many-loose', 'cleanup-prunes-pack'):
             jd = os.path.join(scratch, 'd-' + scen)
             s0 = file_store(jd)
             s0.dump('v1', D.KEY)
             s0.dump(np.arange(5), D.KEY2)
-            if scen == 'resave':
+            if scen in ('remove-packed', 'remove_many-packed', 'cleanup-prunes-pack'):
+                s0.dump('third', KEY3)
+            if scen != 'update_pack':
                 s0.update_pack()
+            if scen == 'remove_many-loose':
+                s0.dump(list(range(400)), KEY3)      # too large for the pack: stays a loose file
             stats = {'points': 0, 'powerloss_images': 0, 'prior': set(), 'must_have': (D.KEY, D.KEY2)}
             for root, _, files in os.walk(jd):
                 for f in files:
                     stats['prior'].add(os.path.join(root, f))
-            allowed = {D.KEY: {vcanon('v1')}, D.KEY2: {vcanon(np.arange(5))}}
+            allowed = {D.KEY: {vcanon('v1')}, D.KEY2: {vcanon(np.arange(5))}, KEY3: {vcanon('third'), vcanon(list(range(400)))}}
             rp = {'kind': 'pack', 'scenario': scen}
-            probe = make_probe(run, allowed, [D.KEY, D.KEY2], False, rp, stats)
+            probe = make_probe(run, allowed, [D.KEY, D.KEY2, KEY3], False, rp, stats)
             store = file_store(jd)
             rec = D.Recorder(jd, probe)
             from jugverif import fsgate
             undo = fsgate.install(rec, wrap_files=True)
             try:
-                store.resave_pack() if scen == 'resave' else store.update_pack()
+                if scen == 'resave':
+                    store.resave_pack()
+                elif scen == 'update_pack':
+                    store.update_pack()
+                elif scen == 'remove-packed':
+                    store.remove(KEY3)
+                elif scen in ('remove_many-packed', 'remove_many-loose'):
+                    store.remove_many([KEY3])
+                else:
+                    store.cleanup([_T(D.KEY), _T(D.KEY2)], keeplocks=False)
             finally:
                 undo()
             rec.finish()
